@@ -6,7 +6,7 @@ from .common import *
 
 # token indices (0 = op) holding hex payloads / payload lists, per op: used by the shrinker
 PAYLOAD = {"kg": [2], "mg": [3], "kmg": [3], "oligo": [3], "covrow": [6], "cgr": [2], "ocgr": [4],
-           "ofile": [10], "osched": [6], "cgrfile": [5], "ocgrfile": [7], "ctr": [6], "cov": [9, 10], "s2m": [5], "m2s": [5], "read": [], "readc": [2], "ctrfs": [4], "covfs": [7], "cli": [4, 5], "hist": [],
+           "ofile": [10], "osched": [6], "cgrfile": [5], "ocgrfile": [7], "ctr": [6], "cov": [9, 10], "s2m": [5], "m2s": [5], "read": [], "readc": [2], "ctrfs": [4], "covfs": [7], "obig": [], "cli": [4, 5], "hist": [],
            "py:kg": [2], "py:mg": [3], "py:oligo": [3], "py:cgr": [2], "hooks": [], "csched": [], "msched": []}
 
 BASE_TRUSTED = [
@@ -315,6 +315,10 @@ def gen_C04(r, tier):
         cases.append("ofile %d %d %d %s %d %d %s %s 60 %s" % (k, norm, r.below(2), hx(r.pick([b" ", b",", b"\t"])), pick_threads(r),
                                                               r.pick([1, 100, 4294967296]), r.pick(["auto", "mmap", "batch"]) if norm else r.pick(["auto", "batch"]),
                                                               r.pick(["fa", "fq", "faw"]), hxlist(recs)))
+    # records too long for the executable models (beyond 2^24 windows of one k-mer): the proved relation "raw entries
+    # sum to the number of valid windows" is checked on the implementation's row
+    for kind, L in ([("a", 2 ** 24 + 40), ("ac", 2 ** 25 + 11)] if tier == "quick" else [("a", 2 ** 24 + 40), ("ac", 2 ** 25 + 11), ("lcg", 2 ** 26 + 5), ("a", 2 ** 25 + 3)]):
+        cases.append("obig %d %s %d" % (r.pick([1, 2, 3]), kind, L))
     return cases
 
 def extra_C04(cases, impl):
@@ -1209,7 +1213,7 @@ PROPS = {
                 rule="kmer_pos_maps(k) and the header for every k in 1..=7 (quick) / 1..=8 (thorough), all 4^k entries enumerated (entries of non-canonical codes are not compared: unspecified); one case per (op, k), each non-trivial; plus the first line written by `kmertools comp oligo -H` for k in 3..=7 x {csv,tsv,spc,default} x {mapped, batch writer}, also for an input without records and one whose only record is shorter than k",
                 assumptions=[], exhaustive=True),
     "C04": dict(gen=gen_C04, needs=["harness"], extra=extra_C04, sample_filter=lambda c: int(c.split(" ")[1]) <= 6 and len(c) < 900,
-                rule="seeded records (homopolymers, low-complexity repeats, palindromic h++rc(h), all-ambiguous, mixed with planted ambiguous bytes; boundary lengths 0,1,k-1,k,k+1,2k) for k in 1..=8, raw and normalised, each also as its reverse complement, lower case, U for T and both; vector entries compared as binary64 bit patterns with the Flocq model; non-trivial = some entry non-zero; relations on the implementation: the four respellings give the identical row",
+                rule="seeded records (homopolymers, low-complexity repeats, palindromic h++rc(h), all-ambiguous, mixed with planted ambiguous bytes; boundary lengths 0,1,k-1,k,k+1,2k) for k in 1..=8, raw and normalised, each also as its reverse complement, lower case, U for T and both; vector entries compared as binary64 bit patterns with the Flocq model; non-trivial = some entry non-zero; relations on the implementation: the four respellings give the identical row; for records of 2^24+40 .. 2^26 bases, beyond what the executable models can evaluate, the proved relation 'raw entries sum to the number of valid windows' (and the single column of poly-A) is checked on the implementation's row - a test of a relation, not a comparison with the model",
                 nontrivial=lambda c, o: bool(o) and not o.startswith(("PANIC", "CRASH", "NOT-RUN")) and any(x != "0" for x in o.split(",")),
                 assumptions=["bytes 0x00-0x03 are never generated", "counts stay below 2^53 (f64 increments exact)"]),
     "C08": dict(gen=gen_C08, needs=["harness"], to_spec=spec_fs(),
